@@ -207,7 +207,16 @@ func expectC13(s SetSpec, limit int, known map[string]bool, noPlugin map[string]
 	if len(s.Ops) == 0 {
 		return "no operations", nil, nil
 	}
+	// the handlers read the FIRST extension carrying an id and ignore further ones with the same id
+	seenExt := map[uint32]bool{}
+	if s.Sync || s.Serializable {
+		seenExt[111] = true // Build puts the request's own (well-formed) strategy first
+	}
 	for _, e := range s.Ext {
+		if seenExt[e.ID] {
+			continue
+		}
+		seenExt[e.ID] = true
 		if (e.ID == 111 || e.ID == 112) && len(e.Msg) == 3 && e.Msg[0] == 0xff {
 			return "malformed extension", nil, nil
 		}
